@@ -272,7 +272,7 @@ def gen_plan(rng, idx):
                 d.append(docgen.frag('plain', ' '.join(w_) + '.', w_))
             reqs.append({'client': i, 'fields': fields, 'doc': {'frags': d},
                          'text_pos': rng.randrange(len(fields) + 1),
-                         'over': over})
+                         'over': over, 'crlf': rng.random() < 0.15})
         plan['requests'] = reqs
         plan['files'] = files
         plan['names'] = []
@@ -280,7 +280,7 @@ def gen_plan(rng, idx):
         names = []
         for i, d in enumerate(docs):
             name = rng.choice(['main', 'ch', 'sec', 'kapitel']) + str(i) + '.tex'
-            files[name] = {'frags': d, 'enc': enc}
+            files[name] = {'frags': d, 'enc': enc, 'crlf': rng.random() < 0.15}
             names.append(name)
         plan['argv'] = argv + ['--output', route] + names
         plan['files'] = files
@@ -307,7 +307,10 @@ def units(plan):
                 eff[k] = ov.get(k)
             eff['lang'] = ov.get('language', o['lang'])
             eff['over'] = ov
-            out.append(('request-%d' % i, docgen.file_text(r['doc']), eff))
+            text = docgen.file_text(r['doc'])
+            if r.get('crlf'):
+                text = text.replace('\n', '\r\n')
+            out.append(('request-%d' % i, text, eff))
     else:
         for n in plan['names']:
             out.append((n, shellscen.shell_text(
@@ -686,6 +689,9 @@ def evaluate(plan):
     if n_exp:
         nt = obs['digest']
     probes['route_' + route] = 1
+    if any(sp.get('crlf') for sp in plan['files'].values()) or \
+            any(r_.get('crlf') for r_ in plan.get('requests') or []):
+        probes['crlf_line_ends'] = 1
     probes['transport_' + plan['transport']] = 1
     probes['flags_judged'] = n_exp
     return core.ok(obs['digest'], probes=probes, runs=runs, nontrivial=nt, **kw)
